@@ -4,6 +4,7 @@ from typing import List
 from inline_snapshot._adapter.adapter import Adapter
 
 from .._change import Change
+from .._compare_context import compare_context
 from .._compare_context import compare_only
 from .._global_state import state
 from .._sentinels import undefined
@@ -36,7 +37,12 @@ class EqValue(GenericValue):
                     self._new_value = ex.value
                     break
 
-        return self._return(self._old_value == other, self._new_value == other)
+        with compare_context():
+            # inner snapshots record their values in the comparison with the new value,
+            # where they are at the position which the alignment has chosen for them
+            old_result = self._old_value == other
+
+        return self._return(old_result, self._new_value == other)
 
     def _new_code(self):
         return self._file._value_to_code(self._new_value)
